@@ -16,13 +16,44 @@ from .. import corpus
 from .. import annetenv as E
 
 
-def both(hw, fmt, old, new):
+def both(hw, fmt, old, new, files=None):
+    """the two front ends are called separately (an error of one must be an error of the other); with `files` = (old path, new path) the
+    file worker is driven on disk as well: the SAME two paths are rewritten in place for every case of the run"""
     from annet import api
     dev = E.device(hw)
-    ddiff, dpatch = api._diff_and_patch(dev, E.cp(old), E.cp(new), None, None, False)
-    _rb, fdiff, _pre, fpatch = api._read_old_new_diff_patch(E.cp(old), E.cp(new), hw, False)
-    return {"fcmds": cases.jpaths(fmt.cmd_paths(fpatch)), "dcmds": cases.jpaths(fmt.cmd_paths(dpatch)),
-            "fdiff": cases.jdiff(fdiff), "ddiff": cases.jdiff(ddiff)}
+    out = {"fcmds": [], "dcmds": [], "fdiff": [], "ddiff": [], "ferr": False, "derr": False, "wlines": [], "dlines": []}
+    dpatch = None
+    try:
+        ddiff, dpatch = api._diff_and_patch(dev, E.cp(old), E.cp(new), None, None, False)
+        out["dcmds"], out["ddiff"] = cases.jpaths(fmt.cmd_paths(dpatch)), cases.jdiff(ddiff)
+    except Exception as e:
+        out["derr"], out["dexc"] = True, repr(e)
+    try:
+        _rb, fdiff, _pre, fpatch = api._read_old_new_diff_patch(E.cp(old), E.cp(new), hw, False)
+        out["fcmds"], out["fdiff"] = cases.jpaths(fmt.cmd_paths(fpatch)), cases.jdiff(fdiff)
+    except Exception as e:
+        out["ferr"], out["fexc"] = True, repr(e)
+    if files is not None and dpatch is not None and not out["ferr"]:
+        vfmt = E.registry().match(hw).make_formatter()
+        for path, t in zip(files, (old, new)):
+            with open(path, "w") as f:
+                f.write(vfmt.join(t))
+        args = types.SimpleNamespace(hw=hw, add_comments=False, indent="  ")
+        from annet.annlib import tabparser
+        try:
+            # device mode on what the two files hold NOW (read back independently of the worker)
+            held = [tabparser.parse_to_tree(open(path).read(), vfmt.split) for path in files]
+            _d2, dpatch2 = api._diff_and_patch(dev, held[0], held[1], None, None, False)
+        except Exception:
+            return out                 # the text does not parse back / device mode refuses it: nothing to compare the worker with
+        try:
+            res = list(api.file_patch_worker(files, args))
+            text = res[0][1] if res else ""
+            out["wlines"] = [ln.split() for ln in text.split("\n") if ln.strip()]
+            out["dlines"] = [ln.split() for ln in api._format_patch_blocks(dpatch2, hw, "  ").split("\n") if ln.strip()]
+        except Exception as e:
+            out["ferr"], out["fexc"] = True, "file_patch_worker: " + repr(e)
+    return out
 
 
 def mix(rnd, pool):
@@ -60,13 +91,15 @@ def run(ctx):
         byv.setdefault(s[1], []).append(s)
     recs = []
 
+    files = (os.path.join(ctx.scratch, "old.cfg"), os.path.join(ctx.scratch, "new.cfg"))
+
     def add(tag, vendor, hw, old, new):
         fmt = registry_connector.get().match(hw).make_formatter(indent="")
         rec = {"id": "%s-%d" % (tag, len(recs)), "vendor": vendor, "old": cases.jtree(old), "new": cases.jtree(new)}
         try:
-            rec.update(both(hw, fmt, old, new))
+            rec.update(both(hw, fmt, old, new, files if len(recs) % 3 == 0 else None))
         except Exception as e:
-            rec.update({"fcmds": [], "dcmds": [], "fdiff": [], "ddiff": [], "exc": repr(e)})
+            rec.update({"fcmds": [], "dcmds": [], "fdiff": [], "ddiff": [], "ferr": True, "derr": True, "wlines": [], "dlines": [], "exc": repr(e)})
         recs.append(rec)
         ctx.count()
         if rec["dcmds"]:
@@ -106,14 +139,21 @@ def run(ctx):
             new = fam.build([fam.sep.join(x) for x in ln], **({"blocks": []} if kw else {}))
             add("vlanfam", hw.vendor, hw, old, new)
     ctx.sample({"vendor": recs[0]["vendor"], "old": recs[0]["old"], "new": recs[0]["new"], "device_mode_cmds": recs[0]["dcmds"]})
-    slim = [{k: r[k] for k in ("id", "fcmds", "dcmds", "fdiff", "ddiff")} for r in recs]
+    # inputs on which a rule logic raises (a legal line the cisco VLAN logic refuses): both front ends must fail alike
+    for model in ("Cisco Catalyst C3750", "Cisco Nexus 9336"):
+        hw = E.hwview(model, "")
+        iface = "interface GigabitEthernet1/0/1" if "Catalyst" in model else "interface Ethernet1/1"
+        for lo, ln in ((["switchport trunk allowed vlan 2-4"], ["switchport trunk allowed vlan all"]),
+                       (["switchport trunk allowed vlan all"], ["switchport trunk allowed vlan 2-4"]),
+                       (["switchport trunk allowed vlan 2-4", "description x"], ["switchport trunk allowed vlan all", "description y"])):
+            add("raises", hw.vendor, hw, od([("hostname a", od()), (iface, od((r, od()) for r in lo))]),
+                od([("hostname b", od()), (iface, od((r, od()) for r in ln))]))
+    slim = [{k: r[k] for k in ("id", "fcmds", "dcmds", "fdiff", "ddiff", "ferr", "derr", "wlines", "dlines")} for r in recs]
     verd = ctx.judge("trace/Trace_FrontEnds.tla", "trace/Trace.cfg", slim, shards=16)
     for r in recs:
         v = verd[r["id"]]
-        if "exc" in r:
-            # both front ends share most code: an exception is only a finding when it is not raised by both... it aborts both here
-            ctx.skip("annet raised in both front ends for an assembled tree: %s" % r["exc"][:60])
-            continue
+        if r.get("ferr") and r.get("derr"):
+            ctx.skip("annet raised in both front ends: %s" % (r.get("dexc") or r.get("exc") or "")[:60])
         if v[0] != "ok":
             ctx.reject(r["id"], "%s at position %s" % (v[0], v[1]), r, signature_of(r, v))
 
